@@ -204,9 +204,11 @@ def run(ck, F, E):
     if tkb is not None:
         ok = False
         for b, i, pl, rv, sp in tkb.assigns():
-            if rv["k"] == "binop" and rv["op"] == "Lt":
+            if rv["k"] == "binop" and rv["op"] in ("Lt", "Gt", "Ne"):
                 l, r = show(tkb.expr(rv["a"])), show(tkb.expr(rv["b"]))
-                if "parse_data_until_colon" in l and ".1" in l and "len(" in r:
+                if rv["op"] == "Gt":
+                    l, r = r, l
+                if "parse_data_until_colon" in l and ".1" in l and "len(" in r and "input" in r:
                     ok = True
         ck.require(ok, "C08:EXTRA:leftover-by-bytes-read", "EXTRA IGNORED",
                    "has_leftover_input = bytes consumed by the DATA parser < reply length",
